@@ -108,14 +108,15 @@ def run(c):
             c.record("committed-only-reads", "R3", None, d + " (%d entry points)" % len(roots), "hold", [])
     # --- trusted base: user-written unsafe blocks are the frozen set (heed environment open/resize, memory maps)
     import collections as _c
-    allowed = {"grin_store::lmdb::Store::new": 1, "grin_store::lmdb::Store::migrate_to_default_env": 2, "grin_store::lmdb::Store::maybe_resize": 1,
-               "grin_store::lmdb::Store::maybe_resize::{closure#0}": 1, "grin_store::types::AppendOnlyFile::init": 1, "grin_store::types::AppendOnlyFile::flush": 1}
-    got = _c.Counter(u["nfn"] for u in c.F.unsafes)
+    allowed = {"grin_store::lmdb::Store::new": 1, "grin_store::lmdb::Store::migrate_to_default_env": 2, "grin_store::lmdb::Store::maybe_resize": 2, "grin_store::types::AppendOnlyFile::init": 1, "grin_store::types::AppendOnlyFile::flush": 1}
+    import re as _re
+    fold = lambda k: _re.sub(r"(::\{closure#\d+\})+$", "", k)
+    got = _c.Counter(fold(u["nfn"]) for u in c.F.unsafes)
     d = "user-written `unsafe` blocks in the workspace are the frozen set (LMDB environment open/resize, memmap); none touches chain state"
     extra = {k: n for k, n in got.items() if n > allowed.get(k, 0)}
     if extra:
         for k, n in sorted(extra.items()):
-            locs = ["%s:%s" % (u["span"]["file"], u["span"]["lo"]) for u in c.F.unsafes if u["nfn"] == k]
+            locs = ["%s:%s" % (u["span"]["file"], u["span"]["lo"]) for u in c.F.unsafes if fold(u["nfn"]) == k]
             c.record("unsafe-inventory", "R3", k, d, "violation", locs, ["%s contains %d unsafe block(s), %d allowed" % (k, n, allowed.get(k, 0))], key_detail="unsafe")
     elif sum(got.values()) < 5:
         c.lost("unsafe-inventory", "R3", None, d, "only %d unsafe blocks seen (matcher lost?)" % sum(got.values()))
